@@ -87,6 +87,9 @@ CONTRACTS = [variant(AsyncScope, "C07", P), variant(TaskGroupExit, "C07", P), Ch
              variant(_Run, "C07", ("C06-P1",)), variant(_Spawn, "C07", ("C06-P1",))]
 
 
+from .C02 import _metrics_exit_never_raises      # noqa: E402
+
+
 def extra_contracts():
     """Borrowed late (contracts/C08.py imports C02, which this module imports too): the scope treats `Disposables.__aexit__` as a
     callee that answers a cancellation delivered while the cleanups run with CancelledError itself - not with a group that
@@ -96,4 +99,5 @@ def extra_contracts():
     from .C11 import StreamBody
     # ... and a context stream is a scope as well: "the tasks it spawned in those scopes are cancelled too" needs the stream's
     # scope to own a task group (entered with the asynchronous protocol)
-    return [variant(Exit, "C07", ("P4:a-cancelled-exit-raises-CancelledError",)), variant(StreamBody, "C07", ("C06-P6",))]
+    return [variant(Exit, "C07", ("P4:a-cancelled-exit-raises-CancelledError",)), variant(StreamBody, "C07", ("C06-P6",))] + \
+        _metrics_exit_never_raises("C07")
